@@ -102,8 +102,10 @@ type Property struct {
 	Workers     int   // max parallel workers (0 = default)
 	// CaseTimeoutS is the generous per-case watchdog in seconds (default 600).
 	CaseTimeoutS int
-	Gen          func(tier string, seed int64) []Case
-	Run          func(c *Case, env *Env) *Obs
+	// Classify names the structural class of a case (used in the signature of a worker death).
+	Classify func(c *Case) string
+	Gen      func(tier string, seed int64) []Case
+	Run      func(c *Case, env *Env) *Obs
 	// Post runs in the supervisor over all observations (offline checkers, coverage floors).
 	// It may append violations to an aggregate observation and returns inconclusive reasons.
 	Post func(tier string, obs []*Obs, agg *Obs) (inconclusive []string)
